@@ -75,31 +75,79 @@ func (x *exec) chanClose(st *pstate, args []Val, in ssa.Instruction) {
 	// closing a channel has no effect on the modelled state
 }
 
-// ---- maps (filled in by maps.go once needed)
+// ---- maps
+//
+// Map contents are not modelled (opaque maps): a lookup yields an arbitrary value of the element
+// type and an arbitrary `ok`, an update changes nothing that is modelled, iteration yields arbitrary
+// pairs an arbitrary number of times. That over-approximates every real map, so safety obligations
+// (bounds, nil, preconditions of callees) proved under it hold; nothing that depends on what a map
+// contains can be proved. Writing to a nil map is an obligation.
+
+const opaqueMaps = "map contents are not modelled: every lookup and iteration step returns arbitrary values (sound for safety obligations only)"
 
 func (x *exec) makeMap(st *pstate, in *ssa.MakeMap) Val {
-	unsupp("make(map)")
-	return nil
+	x.p.Assumptions[opaqueMaps] = true
+	return x.env.Alloc(st.State)
 }
-func (x *exec) mapUpdate(st *pstate, in *ssa.MapUpdate) { unsupp("map update") }
+
+func (x *exec) mapUpdate(st *pstate, in *ssa.MapUpdate) {
+	x.p.Assumptions[opaqueMaps] = true
+	m := x.term(st, in.Map)
+	if !(m.IsLit() && m.Val.Sign() > 0) {
+		x.check(st, "nil."+x.ord[in], "nil", smt.Neq(m, smt.IntLit(0)), in.Pos(), "assignment to entry in nil map")
+	}
+}
+
 func (x *exec) mapLookup(st *pstate, in *ssa.Lookup) Val {
-	unsupp("map lookup")
-	return nil
+	x.p.Assumptions[opaqueMaps] = true
+	et := in.X.Type().Underlying().(*types.Map).Elem()
+	v := x.env.FreshVal("mapget", x.p.T.SortOf(et))
+	st.assume(x.p.T.Inv(v, et, 0), "type invariant of a map element")
+	x.assumeAllocated(st, v, et)
+	if in.CommaOk {
+		return Tuple{x.wrap(v, et), x.env.Fresh("mapok", smt.Bool)}
+	}
+	return x.wrap(v, et)
 }
+
 func (x *exec) mapLenVal(st *pstate, m Val, t *types.Map) Val {
-	unsupp("len(map)")
-	return nil
+	x.p.Assumptions[opaqueMaps] = true
+	r := x.env.Fresh("maplen", BV64)
+	st.assume(smt.And(smt.BVSge(r, bv64(0)), smt.BVUle(r, maxLen)), "len(map) is a length")
+	return r
 }
+
 func (x *exec) mapDelete(st *pstate, args []Val, argTypes []types.Type, in ssa.Instruction) {
-	unsupp("delete(map)")
+	x.p.Assumptions[opaqueMaps] = true
 }
+
 func (x *exec) rangeInit(st *pstate, in *ssa.Range) Val {
+	if _, ok := in.X.Type().Underlying().(*types.Map); ok {
+		x.p.Assumptions[opaqueMaps] = true
+		return x.term(st, in.X)
+	}
 	unsupp("range over %s", in.X.Type())
 	return nil
 }
+
 func (x *exec) rangeNext(st *pstate, in *ssa.Next) Val {
-	unsupp("range next")
-	return nil
+	if in.IsString {
+		unsupp("range over string")
+	}
+	tup := in.Type().(*types.Tuple)
+	out := Tuple{x.env.Fresh("rangeok", smt.Bool)}
+	for i := 1; i < tup.Len(); i++ {
+		t := tup.At(i).Type()
+		if b, isBasic := t.(*types.Basic); isBasic && b.Kind() == types.Invalid {
+			out = append(out, smt.False) // unused key or value
+			continue
+		}
+		v := x.env.FreshVal("rangeval", x.p.T.SortOf(t))
+		st.assume(x.p.T.Inv(v, t, 0), "type invariant of a map element")
+		x.assumeAllocated(st, v, t)
+		out = append(out, x.wrap(v, t))
+	}
+	return out
 }
 
 var _ = fmt.Sprintf
